@@ -383,7 +383,7 @@ theorem pole_near_optimal (M : MathOps α)
     have hb := Lemmas.cellBound_of_lipschitz M hsqrt (v0 :: rest)
       (Lemmas.signedDist_lipschitz M hsqrt (v0 :: rest) hne (Lemmas.crossSep _))
     have h0 := Lemmas.poleInit_inv M v0 rest tol fuel st0 hinit (boundRect_le v0 rest) hgrid
-    obtain ⟨hinv, _⟩ := Lemmas.run_inv M (v0 :: rest) tol _ hb fuel st0 h0
+    obtain ⟨hinv, _⟩ := Lemmas.polylabel_run_inv M (v0 :: rest) tol _ hb fuel st0 h0
     rw [hres] at hinv
     have hd := hinv.bestOK.d_eq
     refine ⟨hinv.bestOK, hd, ?_⟩
